@@ -22,7 +22,8 @@ EXPLANATION = (
     'except text-left/non-text-right pairs (F17); (C09.7) constant cells evaluate to the value class of their content ("" '
     'is a text, None a blank). (C09.6) 22 representative values incl. numeric-looking texts; (C09.8) the ordered '
     'comparisons as library calls on native arguments made one after the other in one process, forwards and backwards '
-    '(functools.lru_cache is modelled as a real memo keyed by hash and equality).')
+    '(functools.lru_cache is modelled as a real memo keyed by hash and equality).'
+    ' (C09.6) also order laws on texts whose case forms change length, dates on both sides of serial 60 against numbers; (C09.8) keyword forms of the ordered wrappers, = / <> between value instances and native values.')
 NOT_DECIDED = 'trichotomy / transitivity over concrete strings and floats'
 TRUSTED = ['tuple comparison semantics of Python for the (precedence, value) keys', 'functools.lru_cache keyed by hash/equality of the arguments (True == 1 == 1.0 unless typed)']
 
